@@ -103,6 +103,8 @@ def run(ctx):
     run_positions(ctx, n)
     run_evaluators(ctx, max(40, n // 40))
     choicelib.run_half_step(ctx, 40)
+    from props import c15
+    c15.equal_values_in_sequence(ctx)       # 1 then 1.0 then True on one evaluator: each is hashed by its own printed form
 
 
 def search(ctx):
